@@ -1554,7 +1554,10 @@ def compile_try_expression(compiler, expr, root, body, catchers, orelse, finalbo
     return_expr = asty.Name(expr, id=return_var.id, ctx=ast.Load())
     returnable = Result(
         expr=return_expr,
-        temp_variables=[return_var, return_expr],
+        # With a `finally` clause, don't let `(setv x (try …))` rename
+        # our temporary to `x`: the `finally` body can still raise after
+        # the value has been stored, and then `x` mustn't be changed.
+        temp_variables=[] if finalbody else [return_var, return_expr],
     )
     body += (
         body.expr_as_stmt()
